@@ -8,7 +8,8 @@
    out      = (kind value asked)   kind 0 nothing, 1 Init ok, 2 id, 3 the store's error,
                                    4 "integer overflow" error, 5 anything else;
                                    asked = 1 iff Storage.Incr was called during the event
-   raws     = raw counter values fed to a store adapter's guard, gouts = ((ok value) ...) *)
+   raws     = raw counter values fed to a store adapter's guard, gouts = ((ok value) ...)
+   A second case shape carries concurrent scenarios, see check_concurrent. *)
 From Coq Require Import ZArith List Bool.
 From FV Require Import Generated.Consts Lib.Sx C08.Model.
 Import ListNotations.
@@ -211,8 +212,20 @@ Definition guard_checks (raws : list Z) (gouts : list (option Z)) : verdict :=
                     (VPropFail 7))
         (check_that (list_eqb opt_eqb (guard_run 0 raws) gouts) (VMismatch 3)).
 
+(* a concurrent scenario: input = (9 seed ngen callers each step delay), observed =
+   (events outs) — the history as linearised by the harness (order of the store's tickets and,
+   inside a segment, of the ids) with what every call returned.  The model must reproduce the
+   observed values call by call, and the property is evaluated on them. *)
+Definition check_concurrent (evs outs : list sx) : verdict :=
+  match map_opt event_of evs, map_opt obs_of outs with
+  | Some h, Some obs =>
+      if Nat.eqb (length h) (length obs) then vjoin (prop h obs) (corr h obs) else VBad
+  | _, _ => VBad
+  end.
+
 Definition check (c : sx) : verdict :=
   match c with
+  | SList [SList (SInt 9 :: _); SList [SList evs; SList outs]] => check_concurrent evs outs
   | SList [SList [SList evs; SList raws]; SList [SList outs; SList gouts]] =>
       match map_opt event_of evs, map_opt obs_of outs, map_opt sx_int raws, map_opt gout_of gouts with
       | Some h, Some obs, Some rw, Some go =>
